@@ -164,7 +164,7 @@ class Model(SOCModel):
                             exp_cone_constr = ExpConstr(constr.model,
                                                         exprs[0],
                                                         -exprs[2], exprs[1])
-                            self.exp_constr.append(exp_cone_constr)
+                            more_exp.append(exp_cone_constr)
                     elif constr.xtype == 'L':
                         affine_out = constr.affine_out * (1/constr.multiplier)
                         exprs_list = rso_broadcast(constr.affine_in,
@@ -173,7 +173,7 @@ class Model(SOCModel):
                         for exprs in exprs_list:
                             exp_cone_constr = ExpConstr(constr.model,
                                                         exprs[2], exprs[0], exprs[1])
-                            self.exp_constr.append(exp_cone_constr)
+                            more_exp.append(exp_cone_constr)
                 elif isinstance(constr, CvxConstr):
                     if constr.xtype == 'P':
                         affine_out = constr.affine_out * (1/constr.multiplier)
@@ -199,7 +199,7 @@ class Model(SOCModel):
                         for exprs in exprs_list:
                             exp_cone_constr = ExpConstr(constr.model,
                                                         exprs[0], -exprs[1], 1)
-                            self.exp_constr.append(exp_cone_constr)
+                            more_exp.append(exp_cone_constr)
                     elif constr.xtype == 'L':
                         affine_out = constr.affine_out * (1/constr.multiplier)
                         if getattr(constr, 'sum_axis', False) is not False:
@@ -212,7 +212,7 @@ class Model(SOCModel):
                         for exprs in exprs_list:
                             exp_cone_constr = ExpConstr(constr.model,
                                                         exprs[1], exprs[0], 1)
-                            self.exp_constr.append(exp_cone_constr)
+                            more_exp.append(exp_cone_constr)
                     elif constr.xtype == 'F':
                         affine_out = constr.affine_out * (1/constr.multiplier)
                         exprs_list = rso_broadcast(constr.affine_in, affine_out)
@@ -223,11 +223,11 @@ class Model(SOCModel):
                             exp_cone_constr = ExpConstr(constr.model,
                                                         exprs[0] + exprs[1],
                                                         aux_var[s, 0], 1)
-                            self.exp_constr.append(exp_cone_constr)
+                            more_exp.append(exp_cone_constr)
                             exp_cone_constr = ExpConstr(constr.model,
                                                         exprs[1],
                                                         aux_var[s, 1], 1)
-                            self.exp_constr.append(exp_cone_constr)
+                            more_exp.append(exp_cone_constr)
                     elif constr.xtype == 'N':
                         affine_in = constr.affine_in
                         affine_out = constr.affine_out * (1/constr.multiplier)
@@ -246,12 +246,12 @@ class Model(SOCModel):
                                                         -aux_rvar[s] * (1/(order - 1)),
                                                         aux_yvar,
                                                         aux_xvar[s])
-                            self.exp_constr.append(exp_cone_constr)
+                            more_exp.append(exp_cone_constr)
                             exp_cone_constr = ExpConstr(constr.model,
                                                         aux_rvar[s],
                                                         aux_zvar[s],
                                                         aux_xvar[s])
-                            self.exp_constr.append(exp_cone_constr)
+                            more_exp.append(exp_cone_constr)
                 elif isinstance(constr, LMIConstr):
                     lmi.append({'linear': constr.linear,
                                 'const': constr.const,
